@@ -682,7 +682,14 @@ def _tree_instances(tier):
 
 TIER_PARAMS = {'quick': {'conc_cap': 300}, 'thorough': {'conc_cap': 600, 'deadline_s': 3000}}
 
+def _h_leb(ctx):
+    from harness import c16          # imported late: c16 itself shares harnesses of modules that import this one
+    return c16.h_leb(ctx)
+
+
 HARNESSES = [
+    H('h4_2_leb128_values', _h_leb, lambda tier: [dict(n=n, signed=s) for s in (False, True) for n in (1, 2, 5, 9, 10, 11, 12)], expect=('ok', 'parse_error'),
+      desc='DW_FORM_udata / sdata / ref_udata / implicit_const values and abbreviation codes of any length: the LEB128 decoders on every byte string of 1..12 bytes (harness shared with C16)'),
     H('h4_1_unit_header', h_unit_header, _unit_instances, expect=('ok',),
       desc='unit headers: versions 2-5 x DWARF32/64 x address size x byte order x every v5 unit kind, and v4 type units; abbrev offset, dwo id, signature, type offset symbolic; '
            'offsets, sizes, format detection, structs parameters'),
